@@ -48,7 +48,8 @@ def jobs(tier):
            ("auto.monotone", "job_auto", {}),
            ("auto.path", "job_auto_path", {}),
            ("metafile.int", "job_metafile", dict(kind="int")),
-           ("auto.history.grow-in-place", "job_auto_history", {})]
+           ("auto.history.grow-in-place", "job_auto_history", {}),
+           ("auto.linked-files", "job_auto_links", dict(links=True))]
     for n in (1, 2, 3):
         out.append(("config.end-to-end.n%d" % n, "job_config_e2e", dict(n=n, route="config")))
     for n in range(1, (6 if tier == "quick" else 8) + 1):
@@ -364,6 +365,32 @@ def job_auto_history(E, _mutants=None):
     E.check(g0 <= g1, "C12.auto.monotone-in-process", "the choice decreased from %r to %r although the payload grew" % (g0, g1))
 
 
+def job_auto_links(E, links=True, _mutants=None):
+    """Automatic piece length for a payload directory that holds symbolic links to regular files: the bytes behind a
+    link are payload (they are listed and hashed), so they count for the choice like any other file's."""
+    fs = AFS()
+    s0 = E.int("s0", 0, 2 ** 40)
+    s1 = E.int("s1", 0, 2 ** 40)
+    fs.add("/data/name/plain", ("f", 0), s0)
+    fs.add("/elsewhere/big", ("f", 1), s1)
+    fs.add_link("/data/name/sub/link", "/elsewhere/big")
+    fs.add_link("/data/name/rel", "../../elsewhere/big")
+    w = World(fs, mutants=_mutants)
+    T = w.mod("torrent")
+    try:
+        m = T.MetaFile(path="/data/name")
+        g = m.meta["info"]["piece length"]
+        fsp = AFS()
+        fsp.add("/data/name/plain", ("f", 0), s0)
+        gp = World(fsp, mutants=_mutants).mod("torrent").MetaFile(path="/data/name").meta["info"]["piece length"]
+    except Exception as ex:  # noqa: BLE001
+        E.fail("C12.auto.no-exception", "%s: %s" % (type(ex).__name__, ex))
+        return
+    want = World(fs.clone(), mutants=_mutants).mod("utils").get_piece_length(s0 + 2 * s1)
+    E.check(g == want, "C12.auto.links", "payload of %r bytes (two links to a file of s1 bytes) got piece length %r, the same amount in plain files gets %r" % (s0 + 2 * s1, g, want))
+    E.check(gp <= g, "C12.auto.links-monotone", "adding linked files to the payload lowered the choice from %r to %r" % (gp, g))
+
+
 def job_config_e2e(E, n, route=None, _mutants=None):
     """piece-length given in the configuration file must mean what the same string means as a keyword."""
     fs = AFS()
@@ -408,6 +435,28 @@ def post(results, tier):
         for e in r.get("fp_log", []):
             log.add(tuple(e))
     return lemmas.fpdiv_jobs(sorted(log, key=repr))
+
+
+def _replay_auto_links(model, workdir):
+    s0, s1 = int(model["s0"]), int(model["s1"])
+    root = os.path.join(workdir, "data", "name")
+    os.makedirs(os.path.join(root, "sub"))
+    os.makedirs(os.path.join(workdir, "elsewhere"))
+    for pth, n in ((os.path.join(root, "plain"), s0), (os.path.join(workdir, "elsewhere", "big"), s1)):
+        with open(pth, "wb") as f:
+            f.truncate(n)
+    os.symlink(os.path.join(workdir, "elsewhere", "big"), os.path.join(root, "sub", "link"))
+    os.symlink("../../elsewhere/big", os.path.join(root, "rel"))
+    mods = cr.real_torrentfile()
+    T = mods["torrentfile.torrent"]
+    try:
+        g = T.MetaFile(path=root).meta["info"]["piece length"]
+    except Exception as ex:  # noqa: BLE001
+        return ["C12.auto.no-exception: %s" % ex]
+    want = 16384
+    while (s0 + 2 * s1) / want > 1000 and want < 2 ** 24:
+        want *= 2
+    return [] if g == want else ["C12.auto.links (%r vs %r)" % (g, want)]
 
 
 def _replay_auto_history(model, workdir):
@@ -477,6 +526,8 @@ def _replay_config(params, model, notes, workdir):
 def replay(params, model, notes, workdir, seed):
     if params.get("route") in ("config", "config-pass"):
         return _replay_config(params, model, notes, workdir)
+    if params.get("links"):
+        return _replay_auto_links(model, workdir)
     if "s1" in model and "s0" in model and "x" not in model and "s.g0" not in model and "a" not in model:
         return _replay_auto_history(model, workdir)
     if "x" in model and "s.g0" not in model:
